@@ -157,6 +157,7 @@ pub fn c13(ctx: &mut Ctx) -> (u64, String) {
     for l in layouts {
         for mode in &modes {
             pair_bfs(ctx, l, *mode);
+            pair_entry_points(ctx, l, *mode);
         }
     }
     ctx.sample_run("set2", &["byte:E0", "byte:F0", "byte:7C", "byte:13", "byte:83"]);
@@ -244,6 +245,103 @@ impl Sys for PairSys {
         };
         Step { next: (Rid(k2), Rid(k1)), out: (), bad }
     }
+}
+
+/// The same comparison with the bytes arriving through the other two entry points of `Keyboard` (whole words, and bit by
+/// bit after a line glitch + clear()): every ordered pair of key sequences on a fresh pair of keyboards; the outputs of
+/// the second sequence (and the modifiers afterwards) must agree between the Set 2 keyboard and the Set 1 keyboard fed
+/// the translation.
+fn pair_entry_points(ctx: &mut Ctx, layout: usize, mode: HandleControl) {
+    let mut seqs: Vec<(Vec<u8>, Vec<u8>)> = vec![];
+    for (table, c) in translatable_presses() {
+        for brk in [false, true] {
+            let (s2, s1) = xlate_seq(table, brk, c).unwrap();
+            if let Ok(Ok(Some(e))) = run(ScancodeSet2::new(), &s2) {
+                if e.state != KeyState::SingleShot {
+                    seqs.push((s2, s1));
+                }
+            }
+        }
+    }
+    fn feed<S: ScancodeSet>(k: &mut Keyboard<Wrap, S>, bytes: &[u8], via: u8) -> String {
+        let mut out = vec![];
+        for b in bytes {
+            let r = if via == 1 { k.add_word(crate::props::frame::encode(*b)) } else { crate::replay::type_bits(k, *b) };
+            match r {
+                Ok(Some(ev)) => {
+                    let t = format!("{:?} {:?}", ev.code, ev.state);
+                    out.push(format!("{} -> {}", t, fmt_dk(&k.process_keyevent(ev))));
+                }
+                Ok(None) => {}
+                Err(e) => out.push(format!("Err({:?})", e)),
+            }
+        }
+        format!("{} mods=[{}]", out.join(", "), mods_text(bits_from_mods(k.get_modifiers())))
+    }
+    let results = par_chunks(seqs.len(), |i| {
+        let (a2, a1) = &seqs[i];
+        let mut n = 0u64;
+        let mut bads = vec![];
+        for via in [1u8, 2u8] {
+            let mut k2 = Keyboard::new(ScancodeSet2::new(), Wrap(layout as u8), mode);
+            let mut k1 = Keyboard::new(ScancodeSet1::new(), Wrap(layout as u8), mode);
+            let o2 = catch_unwind(AssertUnwindSafe(|| feed(&mut k2, a2, via))).unwrap_or_else(|_| "PANIC".into());
+            let o1 = catch_unwind(AssertUnwindSafe(|| feed(&mut k1, a1, via))).unwrap_or_else(|_| "PANIC".into());
+            n += 1;
+            if o1 != o2 {
+                if bads.len() < 2 {
+                    bads.push((via, i, usize::MAX, o2, o1));
+                }
+                continue;
+            }
+            for (j, (b2, b1)) in seqs.iter().enumerate() {
+                let mut x2 = k2.clone();
+                let mut x1 = k1.clone();
+                let o2 = catch_unwind(AssertUnwindSafe(|| feed(&mut x2, b2, via))).unwrap_or_else(|_| "PANIC".into());
+                let o1 = catch_unwind(AssertUnwindSafe(|| feed(&mut x1, b1, via))).unwrap_or_else(|_| "PANIC".into());
+                n += 1;
+                if o1 != o2 && bads.len() < 2 {
+                    bads.push((via, i, j, o2, o1));
+                }
+            }
+        }
+        (n, bads)
+    });
+    let mut n = 0;
+    let mut nb = 0;
+    for (c, bads) in results {
+        n += c;
+        for (via, i, j, o2, o1) in bads {
+            nb += 1;
+            let mk = |b: u8| if via == 1 { Op::TypeWord(b) } else { Op::TypeBits(b) };
+            let mut p2: Vec<Op> = seqs[i].0.iter().map(|b| mk(*b)).collect();
+            let mut p1: Vec<Op> = seqs[i].1.iter().map(|b| mk(*b)).collect();
+            let mut what = hex(&seqs[i].0);
+            let mut what1 = hex(&seqs[i].1);
+            if j != usize::MAX {
+                p2.extend(seqs[j].0.iter().map(|b| mk(*b)));
+                p1.extend(seqs[j].1.iter().map(|b| mk(*b)));
+                what = format!("{} then {}", what, hex(&seqs[j].0));
+                what1 = format!("{} then {}", what1, hex(&seqs[j].1));
+            }
+            p2.push(Op::Mods);
+            p1.push(Op::Mods);
+            let c2 = format!("kb:wrap-{}:set2:{}", LAYOUT_NAMES[layout], mode_name(mode));
+            let c1 = format!("kb:wrap-{}:set1:{}", LAYOUT_NAMES[layout], mode_name(mode));
+            let how = if via == 1 { "as whole words through add_word" } else { "bit by bit through add_bit (after a glitch and clear())" };
+            ctx.violation(
+                &format!("xlate/e2e-{}/{}/{}/{}", if via == 1 { "words" } else { "bits" }, LAYOUT_NAMES[layout], mode_name(mode), what.replace(' ', "")),
+                &format!("layout {} mode {}: the Set 2 bytes {} arriving {} give '{}' but the translated Set 1 bytes {} give '{}'", LAYOUT_NAMES[layout], mode_name(mode), what, how, o2, what1, o1),
+                Replay { parts: vec![(c2, p2), (c1, p1)], expected: format!("both keyboards report: {}", o2), observed_last: None },
+            );
+        }
+    }
+    ctx.evaluations += n;
+    ctx.traces_validated += n;
+    ctx.part(
+        &format!("pairs:every ordered pair of key sequences through add_word and through add_bit, Keyboard<{},Set2> / Keyboard<{},Set1> mode {}", LAYOUT_NAMES[layout], LAYOUT_NAMES[layout], mode_name(mode)),
+        json!({"engine": "B sweep", "key_sequences": seqs.len(), "entry_points": 2, "sequence_pairs_compared": n, "violations_recorded": nb}),
+    );
 }
 
 fn pair_bfs(ctx: &mut Ctx, layout: usize, mode: HandleControl) {
